@@ -113,6 +113,24 @@ func (w *World) rulesAutomaton(p *Pkg, m *parseModel, add func(ok bool, rule, in
 			post = append(post, s)
 		}
 	}
+	// statements that only call functions outside the package (e.g. handing a
+	// buffer back to a pool) cannot influence the cursor or the verdict
+	dropForeign := func(list []ast.Stmt) []ast.Stmt {
+		var out []ast.Stmt
+		for _, s := range list {
+			if es, ok := s.(*ast.ExprStmt); ok {
+				if call, ok := es.X.(*ast.CallExpr); ok {
+					if fn := calleeOf(info, call); fn != nil && fn.Pkg() != p.P.Types {
+						continue
+					}
+				}
+			}
+			out = append(out, s)
+		}
+		return out
+	}
+	post = dropForeign(post)
+	tail = dropForeign(tail)
 	setFn := p.method("Set")
 	hook := func(e *cEnv, call *ast.CallExpr, fn *types.Func, args []Val) (Val, bool, error) {
 		if p.FuncObj[fn] == setFn && setFn != nil {
